@@ -38,6 +38,34 @@ OWNERS = {
   "action_obj.ActionGroup.flush_calc_changes_for_column": "calc flush for one column",
   "engine.Engine._undo_to_checkpoint": "rollback trims both lists",
 }
+BASE_OWNERS = dict(OWNERS)
+# what identifies an owner when its (private) name is gone: the kinds of write it makes to stored
+OWNER_KINDS = {
+  "useractions.UserActions._do_doc_action": {"append"},
+  "engine.Engine._undo_to_checkpoint": {"del"},
+}
+
+
+def _resolve_owners(w, writes):
+  """The table of owners with private owners that were renamed followed by role: a missing owner
+  is replaced by the one other writer of the same class that makes the same kind of write to
+  stored (and is not an owner itself)."""
+  out = {}
+  for q, why in BASE_OWNERS.items():
+    if w.repo.funcs.get(q) is not None or q not in OWNER_KINDS:
+      out[q] = why
+      continue
+    cls_q = q.rsplit(".", 1)[0]
+    cands = [q2 for q2, ws in writes.items() if q2 not in BASE_OWNERS and
+             q2.rsplit(".", 1)[0] == cls_q and
+             OWNER_KINDS[q] <= {x[1] for x in ws if x[0] == "stored"}]
+    if len(cands) == 1:
+      out[cands[0]] = why
+    else:
+      out[q] = why
+  return out
+
+
 # Writes stored only; tolerated because nothing in the engine calls it (checked).
 DEAD_DESERIALISER = "action_obj.ActionGroup.from_json_obj"
 
@@ -45,6 +73,8 @@ DEAD_DESERIALISER = "action_obj.ActionGroup.from_json_obj"
 def check(run, repo, tier):
   w = World(repo)
   writes = collect_writes(w)
+  global OWNERS
+  OWNERS = _resolve_owners(w, writes)
   analysis, cand = _analyse(w, writes)
   r1_parallel(run, w, writes, analysis)
   r2_owners(run, w, writes, analysis, cand)
@@ -872,7 +902,10 @@ def r3_indirection(run, w, analysis):
                fi.qualname in allowed or (part[0] and part[1] in allowed), fi=fi,
                node=x, nontrivial=False)
   # the gateway's flag
-  gw = w.fn("useractions.UserActions._do_doc_action")
+  gwq = [q for q, why in OWNERS.items() if why.startswith("gateway")]
+  if len(gwq) != 1 or gwq[0] not in analysis:
+    raise AnalysisError("the gateway that records stored actions was not found")
+  gw = w.fn(gwq[0])
   flags = [ev for ev in analysis[gw.qualname][0].events.values()
            if ev[2] == "direct" and ev[3] == "append"]
   if len(flags) != 1:
@@ -974,8 +1007,26 @@ def r4_contexts(run, w, analysis):
              fi=_FakeFi(mod, fdef, q))
   if n_formula_sites < 2:
     raise AnalysisError("formula code that runs user actions (_updateSummary) not found")
+  def converts_empty_column(fi):
+    """calls the ModifyColumn user action with {'isFormula': False} (the empty-column conversion
+    done while data is entered; _ensure_column_accepts_data today)"""
+    if fi.name in ua_names:
+      return False
+    f = w.fn_of(fi)
+    for c in calls_in(fi.node.body):
+      if isinstance(c.func, ast.Attribute) and c.func.attr == "ModifyColumn" and \
+          isinstance(c.func.value, ast.Name) and c.func.value.id == "self":
+        for a_ in list(c.args) + [k.value for k in c.keywords]:
+          d_ = H.deref(f, a_)
+          if isinstance(d_, ast.Dict) and any(
+              k is not None and H.const_value(k) == (True, "isFormula") and
+              H.const_value(v) == (True, False) for k, v in zip(d_.keys, d_.values)):
+            return True
+    return False
+  ensure_fi = H.find_by_role(w, "useractions.UserActions", "_ensure_column_accepts_data",
+                             converts_empty_column, "conversion of an empty column to data")
   for q, why in (("docmodel.DocModel.apply_auto_removes", "auto-removals are decided by formulas"),
-                 ("useractions.UserActions._ensure_column_accepts_data",
+                 (ensure_fi.qualname,
                   "converting an empty column while data is entered is not what the user asked "
                   "for")):
     fn = w.fn(q)
@@ -986,7 +1037,7 @@ def r4_contexts(run, w, analysis):
     if not sites:
       raise AnalysisError("%s: no user-action call found (mechanism moved?)" % q)
   # the conversion really is the ModifyColumn(isFormula=False) of the empty column
-  fn = w.fn("useractions.UserActions._ensure_column_accepts_data")
+  fn = w.fn(ensure_fi.qualname)
   mc = w.repo.func("useractions.UserActions.ModifyColumn")
   conv = []
   for (c, inside, where) in _ua_sites(w, fn.node, fn.fi.cls, fn.fi.module, ua_names):
